@@ -21,10 +21,6 @@ fn main() {
         }
         return;
     }
-    if args.len() > 1 && args[1] == "--portable" {
-        portable_suite::run(&args[2..]);
-        return;
-    }
     let stdin = std::io::stdin();
     let stdout = std::io::stdout();
     let mut out = std::io::BufWriter::new(stdout.lock());
@@ -92,6 +88,7 @@ fn main() {
                     }
                 }
             }
+            "P" => portable_suite::run_line(&toks[2..]),
             "IO" => {
                 if toks.len() < 4 {
                     "HARNESS-ERROR IO needs a kind and a shape".to_string()
